@@ -109,6 +109,10 @@ pub struct Script {
     /// the tape interleaves the polls of the two
     #[serde(default)]
     pub dual: bool,
+    /// mode A: the extractor is given `BodySizeLimit::default()` instead of an explicit limit; the
+    /// documented default is 2 MB = 2 000 000 bytes, which is what `limit` holds then
+    #[serde(default)]
+    pub limit_default: bool,
 }
 
 pub fn make_body(script: &Script) -> Vec<u8> {
@@ -655,6 +659,7 @@ struct WireRec {
 thread_local! {
     static WIRE: std::cell::RefCell<WireRec> = std::cell::RefCell::new(WireRec::default());
     static WIRE_LIMIT: std::cell::Cell<u64> = const { std::cell::Cell::new(0) };
+    static WIRE_LIMIT_DEFAULT: std::cell::Cell<bool> = const { std::cell::Cell::new(false) };
 }
 
 /// The request as bytes, plus the decoded body the framing announces.
@@ -738,9 +743,10 @@ fn wire_message(script: &Script, data: &[u8]) -> (Vec<u8>, Vec<u8>, bool) {
             m.extend(frame(1, if data.is_empty() { 0x5 } else { 0x4 }, 1, &block));
             let mut pos = 0;
             let mut cuts: Vec<usize> = Vec::new();
-            for k in sizes.iter() {
-                let k = (*k).min(data.len() - pos).min(16_384);
-                if k == 0 {
+            for want in sizes.iter() {
+                // a size of 0 is an EMPTY DATA frame in the middle of the body (legal, RFC 9113 §6.1)
+                let k = (*want).min(data.len() - pos).min(16_384);
+                if k == 0 && (*want != 0 || pos >= data.len()) {
                     continue;
                 }
                 pos += k;
@@ -823,7 +829,7 @@ async fn wire_service(req: hyper::Request<hyper::body::Incoming>) -> Result<hype
         w.seen_te = head.headers.contains_key(http::header::TRANSFER_ENCODING);
     });
     crate::slog!("service called (content-length header: {:?})", head.headers.get(http::header::CONTENT_LENGTH));
-    let limit = BodySizeLimit::Enabled { max_size: ByteUnit::Byte(WIRE_LIMIT.with(|l| l.get())) };
+    let limit = if WIRE_LIMIT_DEFAULT.with(|l| l.get()) { BodySizeLimit::default() } else { BodySizeLimit::Enabled { max_size: ByteUnit::Byte(WIRE_LIMIT.with(|l| l.get())) } };
     let r = BufferedBody::extract(&head, RawIncomingBody::from(body), limit).await;
     let o = classify(r);
     crate::slog!("extraction finished: {}", short(&o));
@@ -839,6 +845,7 @@ fn run_wire(script: &Script, tape: &mut Tape, keep: bool) -> RunOut {
     let (msg, announced, valid) = wire_message(script, &data);
     WIRE.with(|w| *w.borrow_mut() = WireRec::default());
     WIRE_LIMIT.with(|l| l.set(script.limit));
+    WIRE_LIMIT_DEFAULT.with(|l| l.set(script.limit_default));
     crate::seams::set_clock_ns(crate::seams::EPOCH_S * 1_000_000_000, 0);
     crate::seams::set_entropy(Some(14));
     let my_tape = std::mem::replace(tape, Tape::replay(vec![]));
@@ -1067,6 +1074,9 @@ fn run_wire(script: &Script, tape: &mut Tape, keep: bool) -> RunOut {
     if rec.seen_te {
         out.count("chunked_requests", 1);
     }
+    if script.limit_default {
+        out.count("default_limit_runs", 1);
+    }
     if is_h2 {
         out.count("h2_requests", 1);
         if rec.service_called {
@@ -1248,10 +1258,21 @@ impl Sim for BodySim {
         // a third of the wire runs whose body fits the default flow-control window speak HTTP/2
         let framing = if wire && body_len <= 60_000 && rng.chance(1, 3) {
             let k = rng.usize(0, 6);
-            Framing::H2((0..k).map(|_| rng.usize(1, body_len.max(1))).collect())
+            Framing::H2((0..k).map(|_| if rng.chance(1, 5) { 0 } else { rng.usize(1, body_len.max(1)) }).collect())
         } else {
             framing
         };
+        // ... and one wire run in 150 relies on the DEFAULT limit (documented: 2 MB) with a body around it
+        let (limit, body_len, cl, framing, fragments, limit_default) = if wire && rng.chance(1, 150) {
+            let body_len = (2_000_000i64 + *rng.pick(&[-1i64, 0, 1, 2, 4_096, 97_152, 97_153, -70_000])) as usize;
+            let cl = if rng.chance(1, 3) { Cl::Absent } else { Cl::Truthful };
+            let framing = if matches!(cl, Cl::Absent) { Framing::Chunked(vec![rng.usize(1, body_len), rng.usize(1, body_len)]) } else { Framing::Length };
+            (2_000_000u64, body_len, cl, framing, vec![(body_len + 4096, 0u64)], true)
+        } else {
+            (limit, body_len, cl, framing, fragments, false)
+        };
+        let pipe_capacity = if limit_default { 65_536 } else { pipe_capacity };
+        let fault = if limit_default { WireFault::None } else { fault };
         Script {
             wire,
             limit,
@@ -1267,6 +1288,7 @@ impl Sim for BodySim {
             fault,
             limit_disabled: false,
             dual,
+            limit_default,
         }
     }
 
